@@ -9,7 +9,8 @@
    Two layers:
    (S) the exact SPECIFICATION ("rational-arithmetic oracle"): c14_on_arc, c14_arc_cross,
        c14_extreme_spec — sign tests of triple products only.
-   (F) the FAITHFUL model of what the code does, branch by branch, with every float operation
+   (F) the FAITHFUL model of what the code does (point_within_gca undirected = on-plane test + two sign tests since
+       a3bf7a7f; the older longitude-interval logic is kept as c14_pwg_lonlat), branch by branch, with every float operation
        replaced by the exact one: longitudes are compared as angles of (x,y) in [0,2pi) by exact sign
        tests, latitudes through sin(lat) = z/|v| by sign-aware squared comparison, the pole snap
        |z| > 1 - ERROR_TOLERANCE, the plane test |n.p|/|n| <= ERROR_TOLERANCE and the parallel test <= MACHINE_EPSILON use the exact values of
@@ -148,8 +149,10 @@ Definition c14_plane_ok (a b p : c14_vec) : bool :=
 (* the arc is exactly 180 degrees: ValueError *)
 Definition c14_antipodal (a b : c14_vec) : bool := c14_is0 (c14_cross a b) && (c14_dot a b <? 0).
 
-(* point_within_gca(pt, [a, b], is_directed=False); None = raises ValueError *)
-Definition c14_pwg (a b p : c14_vec) : option bool :=
+(* HISTORICAL: the longitude/latitude interval logic point_within_gca used for undirected arcs before the fix a3bf7a7f
+   (it survives in the code only for is_directed=True, with a different last branch).  Kept because the theorems
+   C14_old_lonlat_* document where it was right and where it was not. *)
+Definition c14_pwg_lonlat (a b p : c14_vec) : option bool :=
   if c14_antipodal a b then None else
   if negb (c14_plane_ok a b p) then Some false else
   let la := c14_lon_f a in let lb := c14_lon_f b in let lp := c14_lon_f p in
@@ -181,6 +184,20 @@ Definition c14_pwg (a b p : c14_vec) : option bool :=
     if 0 <? c14_cross2 mn mx            (* pi > max - min >= 0 *)
     then Some (c14_lon_between la lp lb)
     else Some (c14_lon_le mx lp || c14_lon_le lp mn).
+
+(* dot(cross(v0, p), n) >= -MACHINE_EPSILON for the unit vectors v0, p and the unit normal n:
+   X = (v0 x p).(a x b) on the integer directions, q = |v0|^2 |p|^2 |a x b|^2 *)
+Definition c14_side_ok (X q : Z) : bool :=
+  (0 <=? X) || (X * X * (c14_EPS_den * c14_EPS_den) <=? c14_EPS_num * c14_EPS_num * q).
+
+(* point_within_gca(pt, [a, b], is_directed=False) since a3bf7a7f: the 180-degree check, the on-plane test, then the two
+   sign tests "p on the b side of a" and "p on the a side of b".  None = raises ValueError *)
+Definition c14_pwg (a b p : c14_vec) : option bool :=
+  if c14_antipodal a b then None else
+  if negb (c14_plane_ok a b p) then Some false else
+  let n := c14_cross a b in
+  Some (c14_side_ok (c14_dot (c14_cross a p) n) (c14_nsq a * c14_nsq p * c14_nsq n) &&
+        c14_side_ok (c14_dot (c14_cross p b) n) (c14_nsq p * c14_nsq b * c14_nsq n)).
 
 (* allclose(cross_norms, 0, atol=EPS) for cross_norms = (w0 x w1) x (v0 x v1) of unit vectors *)
 Definition c14_small (x q : Z) : bool :=
